@@ -26,7 +26,7 @@ RULE = ("per transport class (Client, ClientTls, Incomer, IncomerTls, serial Dri
         "{full, partial k for every 0<k<len, 0, would-block (EAGAIN; WANT_READ/WANT_WRITE for TLS)} up to D send calls "
         "(quick M,L,D = 2,3,5; thorough 3,4,6; enumerated completely), every recv sequence of D items over {chunk of "
         "1..3 bytes, would-block}, one connection-loss result at every position, plus seeded long random "
-        "tx/rx interleavings; distinct = distinct (class, queue, queueing mode, result sequence); non-trivial = at "
+        "tx/rx interleavings; random cases also with caller-owned bytearray messages and one message object queued twice, and with `catRxbs` drains between receives; distinct = distinct (class, queue, queueing mode, result sequence); non-trivial = at "
         "least one result that is not 'full' (a re-queue or a blocked read happened)")
 META = {"engine": "D I/O doubles", "technique": "fault enumeration on socket doubles; byte conservation with unique bytes",
         "level_text": "every send/recv result sequence up to the stated bound is executed on the real classes and "
